@@ -188,6 +188,53 @@ func splitKV(resp string) [][2]string {
 	return out
 }
 
+// a process with several in-ports and the *default* output name: re-running the completed workflow must find
+// its outputs again (the default name is a deterministic function of the task) and execute nothing
+func rerunDefaultPaths(ctx *Ctx) {
+	dir := newDir()
+	defer os.RemoveAll(dir)
+	pre := map[string]string{}
+	nodes := []Node{}
+	edges := []Edge{}
+	cmd := `( echo "S P {o:out|basename} $EPOCHREALTIME" >> "$VERIF_CMDTRACE" ; cat`
+	for k := 0; k < 4; k++ {
+		p := fmt.Sprintf("s%d.txt", k)
+		pre[p] = fmt.Sprintf("src%d\n", k)
+		nodes = append(nodes, Node{Name: fmt.Sprintf("src%d", k), Kind: "filesource", Paths: []string{p}})
+		edges = append(edges, Edge{From: fmt.Sprintf("src%d.out", k), To: fmt.Sprintf("P.in%d", k)})
+		cmd += fmt.Sprintf(" {i:in%d}", k)
+	}
+	cmd += ` > {o:out} )`
+	nodes = append(nodes, Node{Name: "P", Kind: "proc", Cmd: cmd})
+	d := &Desc{Name: "defpath", Max: 2, Nodes: nodes, Edges: edges}
+	rr := RunWorkflow(d, RunOpts{Dir: dir, Pre: pre})
+	ctx.Res.Eval("rerun-default-paths", true, "4 in-ports, default output name, 5 re-runs")
+	ctx.Res.Count("default-path-rerun")
+	if rr.Exit != 0 {
+		ctx.Res.Disagree(Violation{What: "default-path workflow failed: " + tail(rr.Stderr), Witness: "default paths"})
+		return
+	}
+	before := listFiles(dir)
+	for k := 0; k < 5; k++ {
+		os.Remove(filepath.Join(dir, "_cmdtrace.log"))
+		r2 := RunWorkflow(d, RunOpts{Dir: dir})
+		if r2.Exit != 0 {
+			ctx.Res.Violate(Violation{What: fmt.Sprintf("re-run %d of a completed workflow exited %d: %s", k, r2.Exit, tail(r2.Stderr)), Class: "c02.rerun-failed", Witness: "default paths"})
+			return
+		}
+		if n := len(startedTasks(r2.CmdTrace)); n > 0 {
+			ctx.Res.Violate(Violation{What: fmt.Sprintf("re-run %d of a completed workflow (default output names) executed %d command(s): %v", k, n, r2.CmdTrace), Class: "c02.rerun-executed", Witness: "default paths, 4 in-ports"})
+			return
+		}
+	}
+	after := listFiles(dir)
+	for p := range after {
+		if _, ok := before[p]; !ok && p != "_cmdtrace.log" {
+			ctx.Res.Violate(Violation{What: "re-run created the new file " + p, Class: "c02.rerun-modified", Witness: "default paths"})
+		}
+	}
+}
+
 func checkC02(ctx *Ctx) {
 	ctx.Res.Rule = "chain workflows (1-3 source files, 1-3 levels, optional second output per level, optional fan-out branch); a random subset of task outputs pre-created with garbage bytes; run, then re-run in place; non-trivial = at least one pre-existing output; distinct by (chain, subset). Checks: stat (inode, mtime-ns, size) and bytes of pre-existing files, command trace (exactly the tasks none of whose outputs pre-exist), downstream content computed from the bytes on disk, and per task the model's execution count."
 	r := NewRng(ctx.Seed)
@@ -227,6 +274,7 @@ func checkC02(ctx *Ctx) {
 			runC02(ctx, cases[i])
 		}
 	})
+	rerunDefaultPaths(ctx)
 }
 
 func init() { checks["C02"] = checkC02 }
